@@ -45,7 +45,6 @@ struct W {
     classes: Vec<(Loc, ClassSpec)>,
     /// (class, delegate name, delegate desc) already targeted by a site
     delegates: BTreeSet<(String, String, String)>,
-    nlibs: usize,
     uniq: u32,
 }
 
@@ -429,7 +428,7 @@ pub fn draw(w: &mut Rng, size: u64) -> Drawn {
         3..=7 => 1,
         _ => 2,
     };
-    let mut wd = W { classes: vec![], delegates: BTreeSet::new(), nlibs, uniq: 0 };
+    let mut wd = W { classes: vec![], delegates: BTreeSet::new(), uniq: 0 };
     // ---- type universe (used in descriptors)
     let nt = match size {
         0 => w.range(0, 2),
